@@ -2082,6 +2082,16 @@ mod tests {
     }
 
     #[test]
+    fn many_consecutive_comments_are_skipped_without_recursion() {
+        let query = format!(
+            "{}{}RETURN 1",
+            "/* c */ ".repeat(50_000),
+            "// c\n".repeat(50_000)
+        );
+        Parser::parse(&query).expect("comments before a query parse");
+    }
+
+    #[test]
     fn parser_complexity_guard_trips_with_tiny_budget() {
         let mut lexer = Lexer::new("WITH x AS y RETURN y");
         let tokens = lexer.tokenize().expect("tokenize should succeed");
